@@ -179,22 +179,63 @@ func genDyn(rng *rand.Rand, thorough bool) []*Scn {
 	} else {
 		expand([]int{0, 1, 3}, []int{1, 3}, false, 3)
 	}
+	// long lists in a tall viewport: the selection jumps far down and back, then a scroll overshoots either end;
+	// with a gap and the top widget well inside the list the insertion and snap-to-end paths are reached
+	bigAlphabet := func(n, H int) []Op {
+		return []Op{{K: "setcursor", A: n - 3}, {K: "setcursor", A: 3}, {K: "pending", A: -100}, {K: "pending", A: 100}, {K: "pending", A: 4},
+			{K: "wheelup"}, {K: "draw", W: 5, H: H}}
+	}
+	bigLen := 4
+	for _, hs := range [][]int{{1, 1, 1, 1, 1, 1, 1, 1, 1, 1, 1, 1, 1, 1, 1, 1}, {1, 2, 1, 2, 1, 2, 1, 2, 1, 2, 1, 2, 1, 2}, {2, 2, 2, 2, 2, 2, 2, 2, 2, 2, 2, 2}} {
+		for gap := 0; gap <= 2; gap++ {
+			for _, H := range []int{10, 11} {
+				if !thorough && (gap == 0 || (H == 10) != (hs[0] == 2)) {
+					continue // quick: gapped lists only, one viewport per height pattern
+				}
+				seqs(bigAlphabet(len(hs), H), bigLen, func(ops []Op) {
+					if len(ops) < bigLen || ops[0].K == "draw" {
+						return
+					}
+					// a frame after every operation: the widget records its anchor while drawing
+					var full []Op
+					for _, o := range ops {
+						full = append(full, o)
+						if o.K != "draw" {
+							full = append(full, Op{K: "draw", W: 5, H: H})
+						}
+					}
+					full = append(full, Op{K: "draw", W: 5, H: H})
+					out = append(out, &Scn{Kind: "dyn-big", Widget: "dyn", Hs: hs, Gap: gap, Cursor: gap == 1, Ops: full})
+				})
+			}
+		}
+	}
 	// long random histories: more items, key events, viewport changes, tall items
 	nrand := 3000
 	if thorough {
 		nrand = 20000
 	}
 	for i := 0; i < nrand; i++ {
+		big := i%4 == 3 // a quarter: long lists, tall viewports, scrolls past either end
 		n := rng.Intn(9)
+		if big {
+			n = 10 + rng.Intn(15)
+		}
 		hs := make([]int, n)
 		for j := range hs {
 			hs[j] = 1 + rng.Intn(4)
+			if big {
+				hs[j] = 1 + rng.Intn(2)
+			}
 			if rng.Intn(8) == 0 {
 				hs[j] = 5 + rng.Intn(4)
 			}
 		}
 		sc := &Scn{Kind: "dyn-random", Widget: "dyn", Hs: hs, Gap: rng.Intn(3), Cursor: rng.Intn(2) == 0}
 		H := rng.Intn(7)
+		if big {
+			H = 5 + rng.Intn(10)
+		}
 		for k, m := 0, 4+rng.Intn(20); k < m; k++ {
 			var op Op
 			switch x := rng.Intn(20); {
@@ -208,6 +249,9 @@ func genDyn(rng *rand.Rand, thorough bool) []*Scn {
 				op = Op{K: "wheelup"}
 			case x < 12:
 				op = Op{K: "pending", A: rng.Intn(13) - 6}
+				if big && rng.Intn(2) == 0 {
+					op.A = (rng.Intn(2)*2 - 1) * (20 + rng.Intn(100))
+				}
 			case x < 13 && n > 0:
 				op = Op{K: "setcursor", A: rng.Intn(n)}
 			case x < 14:
